@@ -598,6 +598,18 @@ func (w *World) advVote(b int, h, v uint64, tag string) bool {
 				blk = c.raw.Block
 			}
 		}
+		if !pr.Present && w.ch.Pick("vote-block-no-proof", 3) == 2 {
+			// the mirror image of "proof without block": a correctly signed vote with a block attached and no proof
+			if props := w.seenProposals(h, -1); len(props) > 0 && w.ch.Pick("vote-known-block", 2) == 1 {
+				if b := w.blocks[string(props[w.ch.Pick("vote-which-block", len(props))].Ref.Hash)]; b != nil {
+					blk = b
+				}
+			}
+			if blk == nil {
+				blk = w.freshBlock(h, b, w.ch.Pick("pp-poison", 4) == 3)
+			}
+			w.use("byz.vote-block-no-proof")
+		}
 	case "byz.vote-proof-no-block":
 		caps := w.capturedProofs(h)
 		if len(caps) == 0 {
@@ -1057,7 +1069,7 @@ func (w *World) mutateMsg(b int, s *SentRec) *interfaces.ConsensusRawMessage {
 		case 3:
 			vv += uint64(1 + w.ch.Pick("mut-dv", 2))
 		case 4:
-			if pr.Present {
+			if pr.Present && len(pr.PP.Hash) > 0 {
 				pr.PP.Hash = cp(pr.PP.Hash)
 				pr.PP.Hash[0] ^= 1
 			} else {
@@ -1104,7 +1116,11 @@ func (w *World) mutateMsg(b int, s *SentRec) *interfaces.ConsensusRawMessage {
 		case 3:
 			vv++
 		case 4:
-			ppHash[0] ^= 1
+			if len(ppHash) > 0 {
+				ppHash[0] ^= 1
+			} else {
+				ppHash = []byte{1}
+			}
 		case 5:
 			ppV++
 		case 6:
